@@ -135,6 +135,16 @@ def check(case):
         data = bytes(b)
         if data != ref_bloom_writer(case["est"], case["fpr"], keys):
             return "Bloom export differs from the reference writer's file"
+        with core.Scratch() as tmp:
+            import os as _os
+
+            p = _os.path.join(tmp, "e.blm")
+            with open(p, "wb") as fh:  # the target exists already and is larger
+                fh.write(b"\xc3" * (len(data) + 555))
+            b.export(p)
+            with open(p, "rb") as fh:
+                if fh.read() != data:
+                    return "Bloom export written over an existing larger file is not the documented file (cells + footer and nothing else)"
         if bytes.fromhex(b.export_hex()) != data[:-20] + struct.pack(">QQf", case["est"], len(keys), f32(case["fpr"])):
             return "Bloom hex export is not hex(cells) + hex(big-endian footer)"
         for k in probes:
